@@ -40,6 +40,8 @@ type Obs struct {
 	// were started, and every Write call that reached their writer
 	Nested    []NestedRun
 	NestLines [][]byte
+	// the value the finalizer of an event started through Logger.Panic() panicked with (Entry 6; the program recovers it)
+	Recovered interface{}
 }
 
 // Prelude: events that are NOT enabled, started on the case's logger before the case's own event, on the
@@ -70,6 +72,14 @@ func finish(e *zerolog.Event, fin int, msg string) {
 	default:
 		e.Msg(msg)
 	}
+}
+
+// finishRecovering: the program's recover() around the finalizer of an event started through Logger.Panic() - what a
+// request handler / worker loop does.  Returns the value recovered (nil: the finalizer returned).
+func finishRecovering(e *zerolog.Event, fin int, msg string) (r interface{}) {
+	defer func() { r = recover() }()
+	finish(e, fin, msg)
+	return nil
 }
 
 func (p *Prelude) run(l zerolog.Logger) {
@@ -192,7 +202,11 @@ func (c *Case) Run() (obs Obs) {
 	default:
 		e := startEvent(l, c.Level, c.EntryUsed())
 		ApplyEvent(e, c.Ops)
-		finish(e, c.Fin, string(c.Msg))
+		if c.EntryUsed() == 6 {
+			obs.Recovered = finishRecovering(e, c.Fin, string(c.Msg))
+		} else {
+			finish(e, c.Fin, string(c.Msg))
+		}
 	}
 	// events the program started and kept (Nested.Late) are finalized now, in the order they were started
 	for i := 0; i < len(deferred); i++ {
@@ -217,7 +231,8 @@ func (c *Case) EndsWriterless() bool {
 }
 
 // EntryNames: the ways an event of a given level is started (Case.Entry)
-var EntryNames = []string{"WithLevel(level)", "the level's method (Trace..Error, Log)", "Logger.Write (io.Writer bridge)", "Logger.Print", "Logger.Printf", "Logger.Println (the message ends in the newline Println adds)"}
+var EntryNames = []string{"WithLevel(level)", "the level's method (Trace..Error, Log)", "Logger.Write (io.Writer bridge)", "Logger.Print", "Logger.Printf", "Logger.Println (the message ends in the newline Println adds)",
+	"Logger.Panic() (the finalizer panics after the line is written; the program recovers and goes on)"}
 
 // EntryUsed: the entry point the case really goes through: an entry that does not exist for the case's level / fields
 // / finalizer falls back to WithLevel(level).
@@ -240,6 +255,10 @@ func (c *Case) EntryUsed() int {
 		if c.Level == 0 && plain && len(c.Msg) > 0 && c.Msg[len(c.Msg)-1] == '\n' {
 			return 5
 		}
+	case 6:
+		if c.Level == 5 {
+			return 6
+		}
 	}
 	return 0
 }
@@ -248,6 +267,9 @@ func (c *Case) EntryUsed() int {
 func HasDiscard(ops []Op) bool { return hasDiscard(ops) }
 
 func startEvent(l zerolog.Logger, level, entry int) *zerolog.Event {
+	if entry == 6 {
+		return l.Panic()
+	}
 	if entry == 1 {
 		switch zerolog.Level(level) {
 		case zerolog.TraceLevel:
@@ -483,4 +505,135 @@ func RunOutputFork(s Settings, now time.Time, parent []Step, upd1, upd2 []Cop, l
 		}()
 	}
 	return out
+}
+
+// ---------------------------------------------------------------- relatives
+//
+// Loggers that share one context buffer without any Context value being used twice: Level / Sample / Hook and plain
+// assignment copy the Logger struct, not the bytes of its context, so the parent and every such relative view the same
+// backing array (each with its own length).  UpdateContext hands the callback the logger's own slice.  Whatever one
+// member of the group does to ITS context - append fields, Reset() and start over - must leave what the others emit
+// untouched: the others log AFTER the update.  (Only one member ever updates: two members appending into the spare
+// capacity they share is the known finding K1's mechanism and is not generated.)
+
+// Relative: a logger obtained from the parent by value
+type Relative struct {
+	Via  int   // 0 assignment, 1 Level(-128), 2 Sample(nil), 3 Hook(h), 4 Level(-128).Hook(h).Sample(nil), 5 Hook(h).Level(-128)
+	Hook []Op  // Via 3, 4, 5
+	Kid  []Cop // non-nil: after the update a child is derived from the relative (With()...Logger()); the child logs, not the relative
+}
+
+// HasHook: the relative registers Hook
+func (r *Relative) HasHook() bool { return r.Via >= 3 }
+
+// Steps: what the relative adds to the parent's chain, for the model (a Hook() is a step with only that hook)
+func (r *Relative) Steps() (out []Step) {
+	if r.HasHook() {
+		out = append(out, Step{Cops: []Cop{{K: "hook", Sub: r.Hook}}})
+	}
+	if r.Kid != nil {
+		out = append(out, Step{Cops: r.Kid})
+	}
+	return
+}
+
+func (r *Relative) derive(l zerolog.Logger) zerolog.Logger {
+	switch r.Via {
+	case 1:
+		return l.Level(zerolog.Level(-128))
+	case 2:
+		return l.Sample(nil)
+	case 3:
+		return l.Hook(HookM{r.Hook})
+	case 4:
+		return l.Level(zerolog.Level(-128)).Hook(HookM{r.Hook}).Sample(nil)
+	case 5:
+		return l.Hook(HookM{r.Hook}).Level(zerolog.Level(-128))
+	}
+	return l
+}
+
+var RelativeVia = []string{"assignment", "Level(x)", "Sample(nil)", "Hook(h)", "Level(x).Hook(h).Sample(nil)", "Hook(h).Level(x)"}
+
+// logOne: one event through lg; what reached w during it
+func logOne(lg *zerolog.Logger, w *capture, level int, ops []Op, msg []byte) (o Obs) {
+	Marks, HookCalls = nil, nil
+	before := len(w.lines)
+	defer func() {
+		if r := recover(); r != nil {
+			o.Panic = r
+		}
+		o.Marks = append([]uint64{}, Marks...)
+		o.HookCalls = append([]HookCall{}, HookCalls...)
+		o.Writes = len(w.lines) - before
+		if o.Writes > 0 {
+			o.Written = true
+			o.Line = w.lines[before]
+		}
+	}()
+	e := lg.WithLevel(zerolog.Level(level))
+	ApplyEvent(e, ops)
+	e.Msg(string(msg))
+	return
+}
+
+// RunRelatives: p := the parent chain's logger; rels[i] derived from p by value; then ONE member of the group - the
+// parent (updater < 0) or rels[updater] - calls UpdateContext(upd) on itself, twice if upd2 != nil; then the children
+// (Relative.Kid) are derived; then every relative (or its child) logs one event, in order, and the parent last.
+// Returns len(rels)+1 observations (the parent's is the last).  Model chains: parent ++ rels[i].Steps() (++ the update
+// step(s) for the updater; an updater has no Kid).
+func RunRelatives(s Settings, now time.Time, parent []Step, rels []Relative, updater int, upd, upd2 []Cop, level int, ops []Op, msg []byte) []Obs {
+	restore := s.Apply()
+	defer restore()
+	zerolog.SetGlobalLevel(zerolog.Level(-128))
+	defer zerolog.SetGlobalLevel(zerolog.DebugLevel)
+	zerolog.TimestampFunc = func() time.Time { return now }
+	w := &capture{}
+	p := zerolog.New(w).Level(zerolog.Level(-128))
+	for _, st := range parent {
+		p = ApplyStep(p, st, w)
+	}
+	ls := make([]zerolog.Logger, len(rels))
+	for i := range rels {
+		ls[i] = rels[i].derive(p)
+	}
+	who := &p
+	if updater >= 0 {
+		who = &ls[updater]
+	}
+	who.UpdateContext(func(c zerolog.Context) zerolog.Context { return ApplyContext(c, upd) })
+	if upd2 != nil {
+		who.UpdateContext(func(c zerolog.Context) zerolog.Context { return ApplyContext(c, upd2) })
+	}
+	for i := range rels {
+		if rels[i].Kid != nil {
+			ls[i] = ApplyContext(ls[i].With(), rels[i].Kid).Logger()
+		}
+	}
+	out := make([]Obs, len(rels)+1)
+	for i := range rels {
+		out[i] = logOne(&ls[i], w, level, ops, msg)
+	}
+	out[len(rels)] = logOne(&p, w, level, ops, msg)
+	return out
+}
+
+// RunContextFork: ctx := parent.With()<first>; kept := ctx.Logger(); other := ctx.Reset()<rest>.Logger(); then one event
+// through kept and one through other.  The Context value is the receiver of Logger() (which adds nothing) and of ONE
+// field-adding continuation.  Model chains: parent ++ [first] and parent ++ [first ++ reset ++ rest].
+func RunContextFork(s Settings, now time.Time, parent []Step, first, rest []Cop, level int, ops []Op, msg []byte) []Obs {
+	restore := s.Apply()
+	defer restore()
+	zerolog.SetGlobalLevel(zerolog.Level(-128))
+	defer zerolog.SetGlobalLevel(zerolog.DebugLevel)
+	zerolog.TimestampFunc = func() time.Time { return now }
+	w := &capture{}
+	p := zerolog.New(w).Level(zerolog.Level(-128))
+	for _, st := range parent {
+		p = ApplyStep(p, st, w)
+	}
+	ctx := ApplyContext(p.With(), first)
+	kept := ctx.Logger()
+	other := ApplyContext(ctx.Reset(), rest).Logger()
+	return []Obs{logOne(&kept, w, level, ops, msg), logOne(&other, w, level, ops, msg)}
 }
